@@ -66,6 +66,7 @@ pub const FAULT_KINDS: &[&str] = &[
     "referral_unresolvable",
     "referral_self",
     "referral_deeper_fake",
+    "referral_glueless_alias_ns",
     "cname_loop_inline",
     "cname_to_loop",
     "cname_stream",
@@ -224,6 +225,12 @@ impl UniverseNet {
                 return Some(vec![rr(qname, &format!("CNAME {target}"), 60)]);
             }
         }
+        // name servers that are themselves aliases into the zone they serve
+        // (see the fault kind referral_glueless_alias_ns)
+        if let Some(k) = first.strip_prefix("gns").and_then(|s| s.parse::<u32>().ok()) {
+            let target = child_name(&format!("gt{k}"), &rest);
+            return Some(vec![rr(qname, &format!("CNAME {target}"), 300)]);
+        }
         if rest_first == "stream" {
             if let Some(k) = first.strip_prefix('s').and_then(|s| s.parse::<u32>().ok()) {
                 let target = child_name(&format!("s{}", k + 1), &rest);
@@ -380,7 +387,7 @@ impl UniverseNet {
         if qname.len() > 200
             && matches!(
                 kind,
-                "lame_same" | "lame_up" | "referral_unresolvable" | "referral_self" | "referral_deeper_fake"
+                "lame_same" | "lame_up" | "referral_unresolvable" | "referral_self" | "referral_deeper_fake" | "referral_glueless_alias_ns"
                     | "cname_loop_inline" | "cname_to_loop" | "cname_stream" | "question_mismatch" | "discard_question"
             )
         {
@@ -450,6 +457,21 @@ impl UniverseNet {
                 resp.authority.push(rr(&owner, &format!("NS {}", child_name("lame", &owner)), 300));
                 let a = self.tagged_a(&child_name("lame", &owner), 300);
                 resp.additional.push(a);
+            }
+            "referral_glueless_alias_ns" => {
+                // a zone served by six glue-less name servers whose names are
+                // aliases into the zone itself: every address lookup leads back
+                // to the same name-server set
+                clear(&mut resp);
+                resp.header.is_authoritative = false;
+                let mut owner = qname.clone();
+                while labels(&owner) > current_depth + 1 {
+                    owner = parent(&owner).unwrap_or_else(|| ".".into());
+                }
+                for k in 0..6 {
+                    resp.authority
+                        .push(rr(&owner, &format!("NS {}", child_name(&format!("gns{k}"), &owner)), 300));
+                }
             }
             "referral_unresolvable" | "referral_self" | "referral_deeper_fake" => {
                 clear(&mut resp);
